@@ -39,22 +39,22 @@ def replay_values(rec, ctx, np, P):
     m, n = e['m'], e['n']
     xs = np.array([float(p) for p in e['pts']])
     want = np.array(e['vals'])
-    tol = 1e-9 * (1 + np.abs(want).max()) * (1 + n)
+    tol = 1e-9 * (1 + core.maxabs(want)) * (1 + n)
     fails = []
     try:
         if m == 0:
             got = P.Qbfs(n, xs.copy())
-            if np.abs(got - want).max() > tol:
+            if core.maxabs(got - want) > tol:
                 fails.append(('Qbfs:value:%s' % PL.order_cls(n), 'n=%d: got %s want %s' % (n, np.round(got, 9).tolist(), np.round(want, 9).tolist())))
             g2 = P.Q2d(n, 0, xs.copy(), np.zeros_like(xs))
-            if np.abs(g2 - want).max() > tol:
+            if core.maxabs(g2 - want) > tol:
                 fails.append(('Q2d:value:m=0', 'Q2d(n=%d, m=0) differs from Qbfs' % n))
         else:
             for sgn in (1, -1):
                 for th in THETAS:
                     az = math.cos(m * th) if sgn > 0 else math.sin(m * th)
                     got = P.Q2d(n, sgn * m, xs.copy(), np.full_like(xs, th))
-                    if np.abs(got - want * az).max() > tol:
+                    if core.maxabs(got - want * az) > tol:
                         fails.append(('Q2d:value:m=%s:%s:%s' % (m if m <= 2 else '3+', 'cos' if sgn > 0 else 'sin', PL.order_cls(n)),
                                       'n=%d m=%d theta=%g: got %s want %s' % (n, sgn * m, th, np.round(got, 9).tolist(), np.round(want * az, 9).tolist())))
                         break
